@@ -80,6 +80,7 @@ def expected(case, start=0, clocks_exact=True):
     start = F(start)
     maps = [TempoMap(t, start) for t in case['tempi']]
     R, L, spawn_at, defer_at = {}, {}, {}, {}
+    pause_at, resume_at = {}, {}      # class P: the root pauses / resumes (without a clock argument) another routine
 
     def b2s(clk, b):
         return b if clk in ('sys', 'app') else maps[int(clk[1:])].beats2secs(b)
@@ -95,9 +96,21 @@ def expected(case, start=0, clocks_exact=True):
             s = b2s(clk, b)
             if a[0] == 'y':
                 b = b + F(a[1])
+                if rid in pause_at and b2s(clk, b) > pause_at[rid]:
+                    # this wake-up finds the routine paused and is dropped; resume() puts the routine back on the
+                    # clock it was PLAYED on, at the caller's logical time (the generator keeps the dropped
+                    # wake-up strictly between pause and resume)
+                    if rid not in resume_at:
+                        return
+                    b = s2b(clk, resume_at[rid])
+                    del pause_at[rid]
                 R[(rid, k + 1)] = (clk, b, b2s(clk, b))
             elif a[0] in ('hang', 'raise', 'yinf', 'yv'):
                 return
+            elif a[0] == 'pause' and mutate:
+                pause_at[a[1]] = s
+            elif a[0] == 'resume' and mutate:
+                resume_at[a[1]] = s
             elif a[0] == 'log':
                 L[rid].append((b, s))
             elif a[0] == 'spawn':
@@ -190,7 +203,7 @@ class Check(common.Check):
                 'spawns on SystemClock / TempoClocks (tempi 2^k) / AppClock (NRT), tempo changes by the root (`tempo=` and '
                 '`etempo`), bodies that raise (logged by the clock) while other routines go on; four '
                 'classes: plain multi-clock, single-clock with tempo changes, multi-clock with tempo changes, '
-                'NRT-only with AppClock; each runs in NRT (main.process) and in RT under virtual time with a '
+                'NRT-only with AppClock; 10% pause/resume-without-clock of a routine on a TempoClock (tempo != 1) or AppClock by a controller on another clock; each runs in NRT (main.process) and in RT under virtual time with a '
                 'scripted lateness (zero, common, per-thread, per-wake-up random incl. lateness larger than the '
                 'next delta). Non-trivial: >=2 routines, >=1 yield with delta>0 and (a tempo clock or a lateness>0); '
                 'distinct by full case')
@@ -217,9 +230,40 @@ class Check(common.Check):
         return {'tempi': tempi, 'root': root, 'rts': rts, 'late': None, 'klass': 'F', 'tail': '0', 'rerun': False,
                 'float': True}
 
+    def gen_pause(self, rng):
+        """A routine playing on a TempoClock (tempo != 1) or on AppClock is paused and later resumed WITHOUT a clock
+        argument by a controller routine that plays on another clock: it goes on on the clock it was played on."""
+        app = rng.random() < 0.25
+        tempi = [rng.choice(['1/4', '1/2', '2', '4'])] + ([rng.choice(TEMPI)] if rng.random() < 0.4 else [])
+        tclk = 'app' if app else 't0'
+        root = 't1' if len(tempi) == 2 and rng.random() < 0.5 else 'sys'
+        tt = F(1) if app else F(tempi[0])
+        rt_ = F(tempi[1]) if root == 't1' else F(1)
+        deltas = [rng.choice(['1/4', '1/2', '1', '1', '3/2', '2']) for _ in range(rng.randint(3, 8))]
+        wake, s = [], F(0)                              # the target's wake-up times in seconds
+        for d in deltas:
+            s += F(d) / tt
+            wake.append(s)
+        k = rng.randrange(0, len(wake) - 1)            # pause between wake-up k-1 and wake-up k (dropped)
+        lo = wake[k - 1] if k else F(0)
+        sp = (lo + wake[k]) / 2 if wake[k] > lo else None
+        if sp is None or sp == 0:
+            return self.gen_pause(rng)
+        sr = wake[k] + rng.choice([F(1, 8), F(1, 4), F(1, 2), F(1), F(3, 2)])
+        target = [['log']]
+        for d in deltas:
+            target += [['y', d]] + ([['log']] if rng.random() < 0.6 else [])
+        ctl = [['spawn', 1, tclk], ['y', fr(sp * rt_)], ['pause', 1], ['y', fr((sr - sp) * rt_)], ['resume', 1]]
+        if rng.random() < 0.5:
+            ctl += [['log'], ['y', rng.choice(['1/2', '1'])], ['log']]
+        return {'tempi': tempi, 'root': root, 'rts': [ctl, target], 'klass': 'P', 'tail': '0', 'rerun': False,
+                'late': None if app else {'mode': 'zero', 'vals': []}}
+
     def gen_one(self, rng):
         if rng.random() < 0.12:
             return self.gen_float(rng)
+        if rng.random() < 0.1:
+            return self.gen_pause(rng)
         klass = rng.choice('AAABBCCD')
         nt = rng.choice([0, 1, 1, 2]) if klass == 'A' else rng.choice([1, 1, 2])
         if klass == 'D':
